@@ -1,6 +1,7 @@
 // Kani unit std_encoding (C11): the encodeUTF8/decodeUTF8/base64/base64Decode/base64DecodeBytes wrappers around an
 // abstract but invertible codec: decoders are left inverses of the encoders, invalid payloads are errors.
 #![allow(unused, dead_code)]
+//@include fixed_bytes.rs
 
 // ---------------------------------------------------------------- stand-ins (trusted)
 #[derive(Debug, Clone, Copy, PartialEq, Eq)]
@@ -15,7 +16,7 @@ pub enum Either2<A, B> { A(A), B(B) }
 pub struct IBytes { pub b: [u8; 4], pub n: usize }
 #[derive(Debug, Clone, Copy, PartialEq, Eq)]
 pub struct IStr { pub b: [u8; 4], pub n: usize }
-fn utf8_ok(b: &[u8]) -> bool { std::str::from_utf8(b).is_ok() }
+fn utf8_ok(b: &[u8]) -> bool { utf8_valid(b) }
 impl IBytes {
     pub fn as_slice(&self) -> &[u8] { &self.b[..self.n] }
     /// contract of IBytes::cast_str (unit interner): Some exactly for valid UTF-8, same bytes
@@ -34,10 +35,10 @@ pub static STANDARD: Engine = Engine;
 pub struct DecodeError;
 impl std::fmt::Display for DecodeError { fn fmt(&self, _f: &mut std::fmt::Formatter<'_>) -> std::fmt::Result { Ok(()) } }
 impl Engine {
-    pub fn encode(&self, b: &[u8]) -> String { let mut s = String::with_capacity(8); let mut i = 0; while i < b.len() { s.push((b'A' + (b[i] >> 4)) as char); s.push((b'A' + (b[i] & 15)) as char); i += 1; } s }
+    pub fn encode(&self, b: &[u8]) -> String { let mut s = String::new(); let mut i = 0; while i < b.len() { s.push((b'A' + (b[i] >> 4)) as char); s.push((b'A' + (b[i] & 15)) as char); i += 1; } s }
     pub fn decode(&self, s: &[u8]) -> Result<Vec<u8>, DecodeError> {
         if s.len() % 2 != 0 { return Err(DecodeError); }
-        let mut v = Vec::with_capacity(4); let mut i = 0;
+        let mut v: Vec<u8> = Vec::new(); let mut i = 0;
         while i + 1 < s.len() { let (h, l) = (s[i], s[i + 1]); if h < b'A' || h > b'P' || l < b'A' || l > b'P' { return Err(DecodeError); } v.push(((h - b'A') << 4) | (l - b'A')); i += 2; }
         Ok(v)
     }
